@@ -31,6 +31,11 @@ def run(ctx):
     import c12
     if ctx.harness(['ls_addsig']):
         c12.concurrent_add(ctx)
+    # what a built-in action captured (the self-pipe's write end) is released by the remover, exactly once, and not inside
+    # a handler - also when its deliveries fail because the reader has gone away
+    import c13
+    if ctx.harness(['p_closecount']):
+        c13.close_counts(ctx, only=lambda name: 'reader_gone' in name or name.endswith('unregistered'))
     ctx.coverage['rule'] = ('scenarios {unregister | unregister_signal | first/second registration} x 1-2 deliveries (incl. prior foreign handler), '
                             'every split point of one activity against the other + random 2-preemption and random run-length schedules; '
                             'distinct_nontrivial = distinct implementation traces in which at least two activities interleave; monitors: '
